@@ -3,13 +3,19 @@ import math
 
 from harness import dtwgen
 
-COQ_FILES = ["theories/BandTie.v", "theories/Ndim.v", "props/C11.v"]
+COQ_FILES = ["theories/BandTie.v", "theories/Ndim.v", "gen/Gen_cdist.v", "theories/CDistCanon.v", "theories/CDistTie.v",
+             "theories/CDistProofs.v", "theories/CDistSpec.v", "props/C11.v"]
 THEOREMS = [("DVProps.C11", "C11_vector_lower_bound"), ("DVProps.C11", "C11_vector_attained"),
-            ("DVProps.C11", "C11_stride_addressing"), ("DVProps.C11", "C11_d1_point_distance")]
+            ("DVProps.C11", "C11_stride_addressing"), ("DVProps.C11", "C11_d1_point_distance"),
+            ("DVProps.C11", "C11_c_ndim_kernel_is_vector_dtw"),
+            ("DVProps.C11", "C11_c_ndim_kernel_with_one_coordinate_is_the_univariate_kernel")]
 TRUSTED_BASE = [
     "Coq 8.16.1 kernel (no native_compute)",
-    "the ndim kernels (dtw_distance_ndim*, dtw_warping_paths_ndim*, distance-matrix ndim loops, innerdistance *Ndim "
-    "classes) are tied to the vector-point model by correspondence (harness/props/C11.py)",
+    "tools/cfun.py: dtw_distance_ndim regenerated WHOLE (Gen_cdist.v) and proved to return the DTW value of the "
+    "vector series, and with one coordinate per point what dtw_distance returns (C11_c_ndim_kernel_*; the Euclidean "
+    "n-dim kernel under C02, the n-dim warping-paths kernel under C04)",
+    "the distance-matrix ndim loops, the innerdistance *Ndim classes and the pyx glue are tied to the vector-point "
+    "model by correspondence (harness/props/C11.py)",
     "extraction + driver.ml",
 ]
 ASSUMPTIONS = ["exact arithmetic: integer vectors; for inner_dist='euclidean' the generated points either differ in one "
